@@ -84,7 +84,8 @@ def chip_res(m, xy):
 def reservations_for(cons, xy, name):
     """[(start, stop)] applying to resource `name` on chip xy."""
     return [(c[2], c[3]) for c in cons if c[0] == "reserve" and c[1] == name
-            and (c[4] is None or tuple(c[4]) == tuple(xy))]
+            and (c[4] is None or tuple(c[4]) == tuple(xy))
+            and c[3] > c[2]]        # an empty range reserves nothing
 
 
 def capacity(m, cons, xy):
